@@ -51,6 +51,8 @@ pub fn check_case(ctx: &Ctx, st: &mut Stats, c: &Case, tag: &str) {
         args.push(input.display().to_string());
     }
     if c.io == 2 {
+        // the output file already exists and is longer than what will be written
+        let _ = std::fs::write(&output, super::common::stale_content());
         args.push(output.display().to_string());
     }
     let out = cli::run(&ctx.bin("sudoku_gen"), &args, stdin.as_deref(), Some(&dir), None, Duration::from_secs(60));
@@ -267,7 +269,7 @@ fn layout(rng: &mut Rng, root: usize, grid: &[usize]) -> String {
             }
             _ => {
                 if rng.chance(1, 4) {
-                    s.push(*rng.pick(&[' ', '\n', '\t', '\u{a0}', '\u{2003}', '\u{3000}']));
+                    s.push(*rng.pick(&[' ', '\n', '\t', '\u{a0}', '\u{2003}', '\u{3000}', '\u{b}', '\u{c}', '\u{85}', '\u{2028}']));
                 }
             }
         }
